@@ -85,6 +85,51 @@ osm_tmp_left(void)
 	return n;
 }
 
+static unsigned
+livemask(void)
+{
+	unsigned m = 0;
+	int i;
+
+	for (i = 0; i < OSM_MAXCHILD; ++i) {
+		if (i < osm.nchild && !osm.child[i].reaped)
+			m |= 1u << i;
+	}
+	return m;
+}
+
+static void
+failure(void)
+{
+	if (osm.nfail == 0)
+		osm.term_due = livemask();
+	++osm.nfail;
+}
+
+int
+osm_term_missing(void)
+{
+	int i, n = 0;
+
+	for (i = 0; i < OSM_MAXCHILD; ++i) {
+		if ((osm.term_due >> i & 1) && osm.child[i].nterm == 0)
+			++n;
+	}
+	return n;
+}
+
+int
+osm_write_ends_open(void)
+{
+	int i, n = 0;
+
+	for (i = 0; i < OSM_MAXFD; ++i) {
+		if (osm.fd[i].kind == OSM_FD_PIPE_W)
+			++n;
+	}
+	return n;
+}
+
 struct osm_child *
 osm_child_of(pid_t *pidp)
 {
@@ -179,7 +224,7 @@ osm_posix_spawnp(pid_t *pid, const char *file, const posix_spawn_file_actions_t 
 	k = osm.nspawn++;
 	__CPROVER_assert(k < OSM_MAXCHILD, "os model: spawn tape large enough for the harness");
 	if (osm_tape.spawn_err[k] != 0) {
-		++osm.nfail;
+		failure();
 		++osm.nspawnfail;
 		return osm_tape.spawn_err[k];           /* no child; *pid is left alone (glibc, musl) */
 	}
@@ -237,14 +282,18 @@ osm_fa_destroy(posix_spawn_file_actions_t *a)
 int
 osm_fa_adddup2(posix_spawn_file_actions_t *a, int fd, int newfd_)
 {
-	int k = osm.nfadup2++;
+	int k = osm.nfainit - 1;
 
 	(void)a;
-	__CPROVER_assert(k < 2 * OSM_MAXCHILD, "os model: adddup2 tape large enough for the harness");
-	if (!osm.fa_live || osm.fa_destroyed)
+	++osm.nfadup2;
+	if (!osm.fa_live || osm.fa_destroyed || k < 0 || (newfd_ != 0 && newfd_ != 1)) {
 		++osm.fa_bad;
-	if (osm_tape.fa_dup2_err[k])
-		return osm_tape.fa_dup2_err[k];
+		return EBADF;
+	}
+	if (newfd_ == 0 && osm_tape.fa_dup2_in_err[k])
+		return osm_tape.fa_dup2_in_err[k];
+	if (newfd_ == 1 && osm_tape.fa_dup2_out_err[k])
+		return osm_tape.fa_dup2_out_err[k];
 	if (newfd_ == 0)
 		osm.fa_in = fd;
 	else if (newfd_ == 1)
@@ -258,7 +307,7 @@ report(struct osm_child *c, int *status, int k)
 	c->reaped = 1;
 	c->status = osm_tape.wait_status[k];
 	if (!osm_status_ok(c->status))
-		++osm.nfail;
+		failure();
 	if (status)
 		*status = c->status;
 	return c->pid;
